@@ -243,6 +243,8 @@ def build_model(content, rng=None, pool=None):
                 else:
                     st[cpd] = Derived(fn=pool.get(cj), args=list(cj["args"]))
             m.add_reaction(name, fn=pool.get(p), args=list(p["args"]), stoichiometry=st)
+        elif kind == "readout":
+            m.add_readout(name, fn=pool.get(p), args=list(p["args"]))
         else:
             raise ValueError(kind)
     return m
@@ -262,6 +264,8 @@ def all_fns(content):
         for _, cj in r["st"]:
             if "c" not in cj:
                 yield cj
+    for _, f in content.get("readouts", []):
+        yield f
 
 
 def attach_module_consts(rng, d):
